@@ -154,6 +154,10 @@ package waddrmgr
 //@   requires nonnil: a != nil
 //@   ensures cleared: a.privKeyCT == nil
 //@   ensures zeroed: forall i Int :: {old(a.privKeyCT)[i]} 0 <= i && i < len(old(a.privKeyCT)) ==> old(a.privKeyCT)[i] == 0
+// added wave3
+// (C03: PrivKey() re-decrypts only when privKeyCT is nil, so a zeroed but kept buffer would be returned as the key after the next Unlock)
+// added wave3
+//@   ensures key_dropped@C03: a.privKeyCT == nil
 //@ func (*baseScriptAddress).lock(a)
 //@   property C05
 //@   requires nonnil: a != nil
@@ -249,6 +253,12 @@ package waddrmgr
 // no scoped manager is re-pointed to another root, account cache or address cache
 //@ macro SKM_PTRS_KEPT() = (@H(ScopedKeyManager.rootManager) == old(@H(ScopedKeyManager.rootManager)) && @H(ScopedKeyManager.acctInfo) == old(@H(ScopedKeyManager.acctInfo))
 //@     && @H(ScopedKeyManager.addrs) == old(@H(ScopedKeyManager.addrs)))
+// added wave3
+// derivation path recorded in a *managedAddress held in a ManagedAddress interface value (field 1 = derivationPath)
+// added wave3
+//@ macro MA_INDEX(v) = select(@H(DerivationPath.Index), fld(v.val, 1))
+// added wave3
+//@ macro MA_BRANCH(v) = select(@H(DerivationPath.Branch), fld(v.val, 1))
 //@ func (*ScopedKeyManager).loadAccountInfo(s, ns, account) (r, err)
 //@   property C05 C03
 //@   requires nonnil: s != nil && s.rootManager != nil
@@ -266,6 +276,12 @@ package waddrmgr
 //@       && select(@H(accountInfo.acctKeyEncrypted), o) == select(old(@H(accountInfo.acctKeyEncrypted)), o)
 //@   ensures cached_noop: old(s.acctInfo != nil && has(s.acctInfo, account)) ==> r == old(s.acctInfo[account]) && hdParent == old(hdParent)
 //@   ensures cached: err == nil ==> s.acctInfo != nil && has(s.acctInfo, account) && s.acctInfo[account] == r
+// added wave3
+// (C08/C03) a freshly loaded account rebuilds its two "last address" entries from the stored next indices of the SAME branch
+// added wave3
+//@   ensures last_external_from_next_external@C08@C03: !old(s.acctInfo != nil && has(s.acctInfo, account)) && err == nil ==> typeis(r.lastExternalAddr, ptr(managedAddress)) && MA_BRANCH(r.lastExternalAddr) == 0 && MA_INDEX(r.lastExternalAddr) == (r.nextExternalIndex > 0 ? r.nextExternalIndex - 1 : 0)
+// added wave3
+//@   ensures last_internal_from_next_internal@C08@C03: !old(s.acctInfo != nil && has(s.acctInfo, account)) && err == nil ==> typeis(r.lastInternalAddr, ptr(managedAddress)) && MA_BRANCH(r.lastInternalAddr) == 1 && MA_INDEX(r.lastInternalAddr) == (r.nextInternalIndex > 0 ? r.nextInternalIndex - 1 : 0)
 // keyToManaged queues the address for derive-on-unlock; it leaves the caches and the root pointer alone
 //@ func (*ScopedKeyManager).keyToManaged(s, derivedKey, derivationPath, acctInfo) (r, err)
 //@   property C05 C03
@@ -273,6 +289,8 @@ package waddrmgr
 //@   requires signable_when_unlocked: SIGNABLE(s, acctInfo) ==> acctInfo.acctKeyPriv != nil && select(hdParent, select(hdParent, derivedKey)) == acctInfo.acctKeyPriv
 //@   requires priv_only_unlocked: PRIV_ONLY_UNLOCKED(s, acctInfo)
 //@   ensures caches_kept: SKM_PTRS_KEPT()
+// added wave3
+//@   ensures path_kept@C03@C08: err == nil ==> typeis(r, ptr(managedAddress)) && MA_INDEX(r) == derivationPath.Index && MA_BRANCH(r) == derivationPath.Branch
 //@   ensures edges_kept: HD_EDGES_KEPT()
 //@ func (*ScopedKeyManager).deriveKeyFromPath(s, ns, internalAccount, branch, index, private) (addrKey, acctKey, fp, err)
 //@   property C05 C03
@@ -379,6 +397,22 @@ package waddrmgr
 //@   ensures public_params_stored: !private && err == nil ==> HAS(B_MAIN(ns), bytes(masterPubKeyName)) && blen(VAL(B_MAIN(ns), bytes(masterPubKeyName))) == 88
 //@   ensures public_key_stored: !private && err == nil ==> HAS(B_MAIN(ns), bytes(cryptoPubKeyName))
 //@   ensures failure_keeps_keys: err != nil ==> m.masterKeyPriv == old(m.masterKeyPriv) && m.masterKeyPub == old(m.masterKeyPub)
+// added wave3
+// (C05 "changing a passphrase makes the new one work immediately") an unlocked manager remembers the new passphrase hashed under the NEW salt it stores, a locked one remembers nothing
+// added wave3
+//@   ensures new_pass_remembered_under_new_salt: private && err == nil && !LOCKED(m) && len(newPassphrase) > 0 ==> (exists d Bytes :: {sha512B(d)} blen(d) == 32 + len(newPassphrase) && sha512B(d) == bytes(m.hashedPrivPassphrase) && bat(d, 0) == m.privPassphraseSalt[0] && bat(d, 31) == m.privPassphraseSalt[31])
+// added wave3
+// (GENUINE DEFECT, expected to fail on the unchanged code; replay_templates/waddrmgr_changepass_empty.go demonstrates it) with an EMPTY new passphrase
+// added wave3
+// append(passphraseSalt[:], newPassphrase...) returns the salt array itself, zero.Bytes(saltedPassphrase) wipes it, and the manager stores an all-zero
+// added wave3
+// salt next to a hash taken under the un-wiped one: Unlock with the new passphrase then fails and locks the manager
+// added wave3
+//@   ensures new_empty_pass_remembered_under_new_salt: private && err == nil && !LOCKED(m) && len(newPassphrase) == 0 ==> (exists d Bytes :: {sha512B(d)} blen(d) == 32 && sha512B(d) == bytes(m.hashedPrivPassphrase) && bat(d, 0) == m.privPassphraseSalt[0] && bat(d, 31) == m.privPassphraseSalt[31])
+// added wave3
+//@   replay waddrmgr_changepass_empty.go
+// added wave3
+//@   ensures locked_remembers_nothing: private && err == nil && LOCKED(m) ==> (forall i Int :: {m.hashedPrivPassphrase[i]} 0 <= i && i < 64 ==> m.hashedPrivPassphrase[i] == 0)
 
 // ConvertToWatchingOnly: a no-op on a watching-only manager; on success the
 // manager is locked (lock() ran if it was unlocked), marked watching-only, and
@@ -561,6 +595,10 @@ package waddrmgr
 //@   ensures length: len(row.rawData) < 2147483648 ==> len(r) == 5 + len(row.rawData)
 //@   ensures header: len(row.rawData) < 2147483648 ==> r[0] == row.acctType && (forall j Int :: {r[j]} 1 <= j && j < 5 ==> r[j] == le32byte(len(row.rawData), j - 1))
 //@   ensures raw: len(row.rawData) < 2147483648 ==> (forall j Int :: {r[j]} 5 <= j && j < len(r) ==> r[j] == row.rawData[j - 5])
+// added wave3
+// (the buffer length and the copied payload do not depend on the 32-bit length field: exact for every input)
+// added wave3
+//@   ensures exact@C04@C08: len(r) == 5 + len(row.rawData) && r[0] == row.acctType && (forall j Int :: {r[j]} 5 <= j && j < len(r) ==> r[j] == row.rawData[j - 5])
 //@ func serializeAddressRow(row) (r)
 //@   property C04
 //@   requires nonnil: row != nil
@@ -611,17 +649,23 @@ package waddrmgr
 //@   ensures edges_kept: HD_EDGES_KEPT()
 //@   ensures state_kept: @H(atomic.Bool.v) == old(@H(atomic.Bool.v)) && @H(accountInfo.acctKeyPriv) == old(@H(accountInfo.acctKeyPriv)) && @H(accountInfo.acctKeyEncrypted) == old(@H(accountInfo.acctKeyEncrypted))
 //@       && @H(accountInfo.acctKeyPub) == old(@H(accountInfo.acctKeyPub)) && held == old(held) && SKM_PTRS_KEPT()
+// added wave3
+//@   ensures path_kept@C03@C08: err == nil ==> r.derivationPath.Index == derivationPath.Index && r.derivationPath.Branch == derivationPath.Branch && r.derivationPath.InternalAccount == derivationPath.InternalAccount
 //@ func newManagedAddressWithoutPrivKey(m, derivationPath, pubKey, compressed, addrType) (r, err)
 //@   property C03 C05
 //@   requires nonnil: m != nil && m.rootManager != nil && pubKey != nil
 //@   ensures result: err == nil ==> r != nil && fresh(r) && r.privKeyEncrypted == nil && r.privKeyCT == nil && r.manager == m && r.pubKey == pubKey && r.addrType == addrType
 //@       && r.compressed == compressed && !r.imported && !r.internal
+// added wave3
+//@   ensures path_kept@C03@C08: err == nil ==> r.derivationPath.Index == derivationPath.Index && r.derivationPath.Branch == derivationPath.Branch && r.derivationPath.InternalAccount == derivationPath.InternalAccount
 //@   ensures failure: err != nil ==> r == nil
 //@ func newManagedAddress(s, derivationPath, privKey, compressed, addrType, acctInfo) (r, err)
 //@   property C03 C04
 //@   requires nonnil: s != nil && s.rootManager != nil && privKey != nil
 //@   requires priv_only_unlocked: PRIV_ONLY_UNLOCKED(s, acctInfo)
 //@   ensures result: err == nil ==> r != nil && len(r.privKeyEncrypted) != 0 && r.manager == s
+// added wave3
+//@   ensures path_kept@C03@C08: err == nil ==> r.derivationPath.Index == derivationPath.Index && r.derivationPath.Branch == derivationPath.Branch && r.derivationPath.InternalAccount == derivationPath.InternalAccount
 //@   ensures failure: err != nil ==> r == nil
 //@   ensures edges_kept: HD_EDGES_KEPT()
 // the signature check of the address self-test is a read-only verdict
@@ -649,6 +693,10 @@ package waddrmgr
 //@   invariant 1 branch: branchKey != nil && select(hdParent, branchKey) == acctKey && PRIV_ONLY_UNLOCKED(s, acctInfo) && acctInfo != nil
 //@   invariant 2 signable_or_queued: SIGNABLE(s, acctInfo) ==> acctKey != nil && acctKey == acctInfo.acctKeyPriv
 //@   invariant 2 branch: branchKey != nil && select(hdParent, branchKey) == acctKey && PRIV_ONLY_UNLOCKED(s, acctInfo) && acctInfo != nil
+// added wave3
+//@   ensures next_internal_past_last: err == nil && internal ==> s.acctInfo != nil && has(s.acctInfo, account) && s.acctInfo[account].nextInternalIndex > lastIndex
+// added wave3
+//@   ensures next_external_past_last: err == nil && !internal ==> s.acctInfo != nil && has(s.acctInfo, account) && s.acctInfo[account].nextExternalIndex > lastIndex
 //@ func (*ScopedKeyManager).nextAddresses(s, ns, account, numAddresses, internal) (r, err)
 //@   property C03
 //@   requires nonnil: s != nil && s.rootManager != nil
@@ -657,6 +705,30 @@ package waddrmgr
 //@   invariant 1 branch: branchKey != nil && select(hdParent, branchKey) == acctKey && PRIV_ONLY_UNLOCKED(s, acctInfo) && acctInfo != nil
 //@   invariant 2 signable_or_queued: SIGNABLE(s, acctInfo) ==> acctKey != nil && acctKey == acctInfo.acctKeyPriv
 //@   invariant 2 branch: branchKey != nil && select(hdParent, branchKey) == acctKey && PRIV_ONLY_UNLOCKED(s, acctInfo) && acctInfo != nil
+// added wave3
+// (C08) the in-memory tracking (next indices, last addresses) of every account that existed before the call is untouched by all four loops and on every
+// added wave3
+// error return; it moves only in the OnCommit hook (nextAddresses$1). (Without `opt stores_fn` on OnCommit the generator assumes that a closure
+// added wave3
+// literal handed to a dependency may be run by it and havocs the hook's writes at the registration call; then only the clauses below up to the call hold.)
+// added wave3
+//@   ensures failure_keeps_tracking@C08: err != nil ==> ACCT_TRACKING_KEPT()
+// added wave3
+//@   invariant 1 tracking_kept@C08: ACCT_TRACKING_KEPT()
+// added wave3
+//@   invariant 2 tracking_kept@C08: ACCT_TRACKING_KEPT()
+// added wave3
+//@   invariant 3 tracking_kept@C08: ACCT_TRACKING_KEPT()
+// added wave3
+//@   invariant 4 tracking_kept@C08: ACCT_TRACKING_KEPT()
+// added wave3
+// (needs `opt stores_fn` on ReadWriteTx.OnCommit: registering the hook does not run it) on EVERY return the tracking is where it was
+// added wave3
+//@   ensures tracking_deferred_to_commit@C08: ACCT_TRACKING_KEPT()
+// added wave3
+//@   ensures hook_registered@C08: err == nil ==> commitHooks == old(commitHooks) + 1
+// added wave3
+//@ macro ACCT_TRACKING_KEPT() = ((forall o Int :: {select(@H(accountInfo.lastInternalAddr), o)} oldalloc(o) ==> select(@H(accountInfo.lastInternalAddr), o) == select(old(@H(accountInfo.lastInternalAddr)), o)) && (forall o Int :: {select(@H(accountInfo.lastExternalAddr), o)} oldalloc(o) ==> select(@H(accountInfo.lastExternalAddr), o) == select(old(@H(accountInfo.lastExternalAddr)), o)) && (forall o Int :: {select(@H(accountInfo.nextInternalIndex), o)} oldalloc(o) ==> select(@H(accountInfo.nextInternalIndex), o) == select(old(@H(accountInfo.nextInternalIndex)), o)) && (forall o Int :: {select(@H(accountInfo.nextExternalIndex), o)} oldalloc(o) ==> select(@H(accountInfo.nextExternalIndex), o) == select(old(@H(accountInfo.nextExternalIndex)), o)))
 
 // Decrypt of the crypto keys (TRUSTED interface contract, implementation snacl.(*CryptoKey).Decrypt,
 // proved in C17): anything shorter than a nonce is refused, the result is newly allocated.
